@@ -49,6 +49,38 @@ REENTRANT = {'groups': [{'name': 'g', 'devices': ['m1']}],
                          {'k': 'sink', 'name': 'snk', 'up': ['gp2'], 'cycle': 'cs'}]}
 
 
+def two_lines_shared_tool(n1=1, n2=2):
+    """Two separate lines S1->M1->K1, S2->M2->K2 whose machines share one unit of pool 'tool'."""
+    return {'pools': {'tool': 1}, 'devices': [
+        {'k': 'source', 'name': 's1', 'cycle': 0, 'parts': n1}, {'k': 'source', 'name': 's2', 'cycle': 'c3', 'parts': n2},
+        {'k': 'proc', 'name': 'p1', 'up': ['s1'], 'cycle': 'c1', 'res': {'tool': 1}},
+        {'k': 'proc', 'name': 'p2', 'up': ['s2'], 'cycle': 'c2', 'res': {'tool': 1}},
+        {'k': 'sink', 'name': 'k1', 'up': ['p1'], 'cycle': 0}, {'k': 'sink', 'name': 'k2', 'up': ['p2'], 'cycle': 0}]}
+
+
+def batches_through_gate(nb=2):
+    """Source (batches) -> PartBatcher(2) -> accept-all gate -> slow processor -> Sink: refused batch hand-overs."""
+    return {'devices': [{'k': 'source', 'name': 'src', 'cycle': 'c0', 'parts': nb, 'batches': [2] * nb},
+                        {'k': 'batcher', 'name': 'bat', 'up': ['src'], 'size': 2},
+                        {'k': 'gate', 'name': 'g', 'up': ['bat'], 'pred': 'all'},
+                        {'k': 'proc', 'name': 'p1', 'up': ['g'], 'cycle': 'c1'},
+                        {'k': 'sink', 'name': 'snk', 'up': ['p1'], 'cycle': 'cs'}]}
+
+
+def buffer_into_batcher(size, nb=2):
+    """Source (batches) -> Buffer -> PartBatcher -> Sink: a batch leaving the buffer is unpacked in place downstream."""
+    return {'devices': [{'k': 'source', 'name': 'src', 'cycle': 'c0', 'parts': nb, 'batches': ['b0', 'b1'][:nb]},
+                        {'k': 'buffer', 'name': 'buf', 'up': ['src'], 'delay': 'd1', 'cap': 6},
+                        {'k': 'batcher', 'name': 'bat', 'up': ['buf'], 'size': size},
+                        {'k': 'sink', 'name': 'snk', 'up': ['bat'], 'cycle': 'cs'}]}
+
+
+BLOCKED_FINISHED = {'devices': [{'k': 'source', 'name': 'src', 'cycle': 0, 'parts': 3},
+                                {'k': 'proc', 'name': 'p1', 'up': ['src'], 'cycle': 'c1'},
+                                {'k': 'handler', 'name': 'h2', 'up': ['p1'], 'cycle': 'c2'},
+                                {'k': 'sink', 'name': 'snk', 'up': ['h2'], 'cycle': 0}]}
+
+
 def _faults_basic(nparts, ops, **kw):
     return with_ops(serial('P', nparts), ops, **kw)
 
@@ -83,6 +115,18 @@ def _subs(tier, prop):
             {'k': 'addres', 'res': 'r', 'amount': 1, 't': 't0'}]), mons, zero=['cs', 'c0']))
         S.append(mk_sub('F5-external-holder-releases', with_ops(serial('P', 2, res={'r': 1}) | {'pools': {'r': 1}}, [
             {'k': 'hold', 'res': 'r', 'amount': 1, 't': 0, 'prio': 'high'}, {'k': 'unhold', 'res': 'r', 't': 't0'}]), mons, zero=['cs']))
+        # a machine waiting for a resource is shut down; the resource is released while it is down and busy again
+        # when it is restored (targeted order class, times symbolic inside it)
+        S.append(mk_sub('F5-shutdown-while-waiting-for-resource', with_ops(two_lines_shared_tool(1, 2), [
+            {'k': 'hold', 'res': 'tool', 'amount': 1, 't': 0, 'prio': 'high'}, {'k': 'unhold', 'res': 'tool', 't': 't2'},
+            {'k': 'shutdown', 'dev': 'p1', 't': 't0'}, {'k': 'restore', 'dev': 'p1', 't': 't1'}]), mons,
+            pre=['t0 < t2', 't2 < c3', 'c3 < t1', 't1 < c3 + c2']))
+        S.append(mk_sub('F6-finished-part-blocked-while-down', with_ops(BLOCKED_FINISHED, [
+            {'k': 'shutdown', 'dev': 'p1', 't': 't0'}, {'k': 'restore', 'dev': 'p1', 't': 't1'}]), mons,
+            pre=['2 * c1 < t0', 't0 < c1 + c2', 'c1 + c2 < t1']))
+        S.append(mk_sub('F6-finished-part-blocked-while-failed', with_ops(BLOCKED_FINISHED, [
+            {'k': 'fail', 'dev': 'p1', 't': 't0'}, {'k': 'restore', 'dev': 'p1', 't': 't1'}]), mons,
+            pre=['2 * c1 < t0', 't0 < c1 + c2', 'c1 + c2 < t1']))
         S.append(mk_sub('F4-nested-n2', NESTED, mons, zero=['cs']))
         S.append(mk_sub('F4-reentrant-n2', REENTRANT, mons, zero=['cs', 'c0']))
         S.append(mk_sub('F8-budget-raise', with_ops(serial('H', 1), [
@@ -93,6 +137,9 @@ def _subs(tier, prop):
         S.append(mk_sub('F1-B-n3-cap2', serial('B', 3, caps={1: 2}), mons, zero=['cs'] if q else []))
         S.append(mk_sub('F1-BP-n2-cap2', serial('BP', 2, caps={1: 2}), mons, zero=['cs']))
         S.append(mk_sub('F1-BP-n3-cap2-slow-consumer', serial('BP', 3, caps={1: 2}), mons, zero=['c0', 'cs']))
+        for size in (None, 2):
+            S.append(mk_sub(f'F7-buffer-into-batcher-size{size}', buffer_into_batcher(size), mons + ['census'],
+                            zero=['c0', 'd1'] if q else ['c0'], ranges={'b0': (0, 3), 'b1': (0, 3), 'd1': (0, L.T)}))
     elif prop == 'C06':
         mons = ['cycle']
         S.append(mk_sub('F1-P-n2', serial('P', 2), mons))
@@ -113,6 +160,10 @@ def _subs(tier, prop):
             {'k': 'shutdown', 'dev': 'p1', 't': 't2'}]), mons, zero=['cs', 'c0'], pre=['t0 <= t1', 't1 <= t2']))
         S.append(mk_sub('F6-fail-restore-n2', _faults_basic(2, [
             {'k': 'fail', 'dev': 'p1', 't': 't0'}, {'k': 'restore', 'dev': 'p1', 't': 't1'}]), mons, zero=['cs'], pre=['t0 <= t1']))
+        S.append(mk_sub('F6-two-interruptions-of-one-part', _faults_basic(1, [
+            {'k': 'shutdown', 'dev': 'p1', 't': 't0'}, {'k': 'restore', 'dev': 'p1', 't': 't1'},
+            {'k': 'shutdown', 'dev': 'p1', 't': 't2'}, {'k': 'restore', 'dev': 'p1', 't': 't3'}]), mons, zero=['cs', 'c0'],
+            pre=['t0 < t1', 't1 < t2', 't2 < t3', 't2 < c1 + (t1 - t0)']))
         S.append(mk_sub('F1-P-offset', with_ops(serial('P', 2), [
             {'k': 'offset', 'dev': 'p1', 't': 0, 'amount': 'o1', 'prio': 'high'}]), mons, zero=['cs'],
             ranges={'o1': (-L.T, L.T)}))
@@ -131,6 +182,10 @@ def _subs(tier, prop):
             pre=['t0 <= t1', 't1 <= t2', 't2 <= t3']))
         S.append(mk_sub('F6-workorder', with_ops(serial('P', 1 if q else 2), [
             {'k': 'workorder', 'dev': 'p1', 't': 't0', 'tag': 'm'}], maint=True, durs={'m': 'w0'}), mons, zero=['cs']))
+        for kind in ('fail', 'shutdown'):
+            S.append(mk_sub(f'F6-finished-part-blocked-downstream-frees-while-{kind}', with_ops(BLOCKED_FINISHED, [
+                {'k': kind, 'dev': 'p1', 't': 't0'}, {'k': 'restore', 'dev': 'p1', 't': 't1'}]), mons + ['wakeup'],
+                pre=['2 * c1 < t0', 't0 < c1 + c2', 'c1 + c2 < t1']))
         S.append(mk_sub('F6-fail-with-finished-part-blocked', with_ops(serial('PH', 2), [
             {'k': 'fail', 'dev': 'p1', 't': 't0'}, {'k': 'restore', 'dev': 'p1', 't': 't1'}]), mons, zero=['cs', 'c0'],
             pre=['t0 <= t1']))
@@ -165,6 +220,9 @@ def _subs(tier, prop):
             {'k': 'fail', 'dev': 'p1', 't': 't0'}, {'k': 'restore', 'dev': 'p1', 't': 't1'}]), mons, zero=['cs'], pre=['t0 <= t1']))
         S.append(mk_sub('F5-maintenance-while-holding', with_ops(serial('P', 2, res={'r': 1}) | {'pools': {'r': 1}}, [
             {'k': 'shutdown', 'dev': 'p1', 't': 't0'}, {'k': 'restore', 'dev': 'p1', 't': 't1'}]), mons, zero=['cs'], pre=['t0 <= t1']))
+        S.append(mk_sub('F5-fail-while-down-holding', with_ops(serial('P', 2, res={'r': 1}) | {'pools': {'r': 1}}, [
+            {'k': 'shutdown', 'dev': 'p1', 't': 't0'}, {'k': 'armfail', 'dev': 'p1', 't': 't0', 'delay': 'd1'},
+            {'k': 'restore', 'dev': 'p1', 't': 't2'}]), mons, zero=['cs'], pre=['t0 + d1 <= t2']))
         S.append(mk_sub('F5-external-holder', with_ops(serial('P', 2, res={'r': 1}) | {'pools': {'r': 1}}, [
             {'k': 'hold', 'res': 'r', 'amount': 1, 't': 0, 'prio': 'high'}, {'k': 'unhold', 'res': 'r', 't': 't0'}]), mons, zero=['cs']))
         S.append(mk_sub('F5-two-resources', serial('P', 2, res={'r': 1, 's': 'a1'}) | {'pools': {'r': 1, 's': 'k1'}}, mons, zero=['cs'],
@@ -232,6 +290,7 @@ def _subs(tier, prop):
                               {'k': 'path', 'name': 'op', 'group': 'gout', 'up': ['src']},
                               {'k': 'sink', 'name': 'snk', 'up': ['op'], 'cycle': 'cs'}]}
         S.append(mk_sub('F4-nested-n2', nested, mons))
+        S.append(mk_sub('F7-batches-through-gate-refused', batches_through_gate(2), mons, zero=['cs', 'c0']))
         S.append(mk_sub('F8-block-path', with_ops(reent, [{'k': 'block', 'dev': 'gp2', 't': 't0'}, {'k': 'unblock', 'dev': 'gp2', 't': 't1'}]),
                         mons, zero=['cs', 'c0'], pre=['t0 <= t1']))
         S.append(mk_sub('F8-block-gate', with_ops(gates, [{'k': 'block', 'dev': 'ge', 't': 't0'}, {'k': 'unblock', 'dev': 'ge', 't': 't1'}]),
@@ -246,6 +305,8 @@ def _subs(tier, prop):
                                     {'k': 'sink', 'name': 'snk', 'up': ['buf'], 'cycle': 'cs'}]}
                 nm = ''.join('1' if b is None else 'B' for b in batches)
                 S.append(mk_sub(f'F7-size{size}-in{nm}', spec, mons, ranges={'b0': (0, 3), 'b1': (0, 3), 'b2': (0, 3)}, zero=['c0']))
+        S.append(mk_sub('F7-buffer-into-batcher-size2', buffer_into_batcher(2), mons, zero=['c0', 'd1'],
+                        ranges={'b0': (0, 3), 'b1': (0, 3)}))
         spec = {'devices': [{'k': 'source', 'name': 'src', 'cycle': 0, 'parts': 2, 'batches': ['b0', 'b1']},
                             {'k': 'batcher', 'name': 'bat', 'up': ['src'], 'size': 2},
                             {'k': 'handler', 'name': 'h', 'up': ['bat'], 'cycle': 'c1'},
@@ -270,6 +331,7 @@ SPLITS = {   # heavy analyses are case-split by the order pattern of these expre
     'F1-PP-n2-values': [('a1', '0'), ('a2', '0')],
     'F6-shutdown-fail-restore': [('t0', 'c0'), ('t0 + d1', 'c0 + c1')],
     'F6-shutdown-armfail-restore': [('t0', 'c0'), ('t0 + d1', 'c0 + c1')],
+    'F5-fail-while-down-holding': [('t0', 'c0'), ('t0 + d1', 'c0 + c1')],
 }
 
 
